@@ -108,11 +108,13 @@ class ImageWriter:
         (width, height) = image.srcsize
 
         filters = image.stream.get_filters()
+        # An image stored without any filter has an empty filter list
+        last_filter = filters[-1][0] if filters else None
 
-        if filters[-1][0] in LITERALS_DCT_DECODE:
+        if last_filter in LITERALS_DCT_DECODE:
             name = self._save_jpeg(image)
 
-        elif filters[-1][0] in LITERALS_JPX_DECODE:
+        elif last_filter in LITERALS_JPX_DECODE:
             name = self._save_jpeg2000(image)
 
         elif self._is_jbig2_iamge(image):
